@@ -32,6 +32,7 @@ import (
 	"github.com/prometheus/alertmanager/provider/mem"
 	"github.com/prometheus/alertmanager/types"
 
+	"verifharness/sysrun"
 	"verifharness/vh"
 	"verifharness/vhm"
 )
@@ -70,6 +71,8 @@ type Case struct {
 	// Race != nil: not a history but a run of the concurrent engine (race_test.go) with these parameters
 	Race *RaceParams `json:"race,omitempty"`
 	Ops  []Op        `json:"ops"`
+	// Pipe != nil: a whole-instance scenario for the product model Inhibitor x Group (pipe_test.go)
+	Pipe *sysrun.Scenario `json:"pipe,omitempty"`
 }
 
 // loadProvider wraps the real provider so that "updates arrive while a new inhibitor is loading" is deterministic:
@@ -1082,7 +1085,9 @@ func TestCheck(t *testing.T) {
 		if err := vh.LoadReplayCase(env.Replay, &c); err != nil {
 			t.Fatal(err)
 		}
-		if c.Race != nil {
+		if c.Pipe != nil {
+			// handled by the pipeline part below
+		} else if c.Race != nil {
 			judgeRace(t, run, *c.Race)
 		} else {
 			cases = append(cases, c)
@@ -1120,4 +1125,5 @@ func TestCheck(t *testing.T) {
 	if err := run.Finish("random rule sets (1-3 rules over sev/cluster/inst/zone, equal lists incl. labels missing on one side; one third of the cases: 2-3 equal labels with values that collide under concatenation) and histories of Put (fresh, refreshed with varied end times, resolved, no end), time passing (time-outs), inhibitor GC ticks, provider GC, restarts of the subscriber generation (inhibitor + a dispatcher-like second subscriber) with updates arriving during the load, subscriber lifecycles over several generations with provider GC in between, over 3-6 label sets sharing equal-values; after every op Mutes+marker for every label set, cache/index content, MuteStage; plus a judged concurrent engine outside synctest (2-4 goroutines Put conflicting versions of the same source alerts at once in large batches against a running inhibitor and plain subscribers, one slow; afterwards every subscriber's last delivered version is the stored one and the running inhibitor agrees with a fresh one loaded from the provider and with the rule over the provider's unresolved alerts); non-trivial = some label set muted and some not muted during the history; distinct by full history text"); err != nil {
 		t.Fatal(err)
 	}
+	pipePart(t, env)
 }
